@@ -564,6 +564,103 @@ def _match_arms(body):
     return arms
 
 
+def r18_auto(text):
+    """general form of R18, applied to every function after the unit's own rewrites:
+    `match S { .. P if G => B .. _ => D }`  ->  `match S { .. P => { if G B else D } .. _ => D }`
+    when the only arm a failed guard can fall through to is the trailing `_` arm (every guarded arm's head constructor differs
+    from the constructor of every other arm, no `|` alternatives, no catch-all binding before the `_`).  D is duplicated
+    textually (the `_` arm binds nothing).  Returns (text, rewritten, left): `left` = number of guarded matches the rule could
+    NOT lower -- this Verus loses the frame of `&mut` parameters across a match guard (spurious failures), so the caller
+    marks such a function `imprecise` and nothing that fails inside it is reported as a violation."""
+    done = 0
+    left = 0
+    pos = 0
+    for _ in range(64):
+        m = re.compile(r'\bmatch\b(?!\s*!)').search(text, pos)
+        if not m:
+            break
+        # find the block: first `{` at paren depth 0 after the scrutinee
+        k = m.end()
+        n = len(text)
+        d = 0
+        while k < n:
+            t = next_token_pos(text, k, n)
+            if t is not None:
+                k = t
+                continue
+            c = text[k]
+            if c in '([':
+                d += 1
+            elif c in ')]':
+                d -= 1
+            elif c == '{' and d == 0:
+                break
+            k += 1
+        if k >= n:
+            break
+        ob = k
+        cb = match_bracket(text, ob, '{', '}')
+        pos = ob + 1            # nested matches are visited next
+        try:
+            arms = _match_arms(text[ob + 1:cb])
+        except (RuleError, IndexError):
+            continue
+        G = re.compile(r'(.+?)\s+if\s+(.+)$', re.S)
+        if not any(G.match(h) for h, b in arms):
+            continue
+        # head constructor of every arm; '_' for the wildcard, None for anything the rule does not understand
+        def ctor_of(pat):
+            pat = pat.strip()
+            if pat == '_':
+                return '_', True
+            c = re.match(r'&?\s*([\w:]+)\s*(\(([^()]*)\))?$', pat)
+            if '|' in pat or '@' in pat or not c or not (c.group(1)[0].isupper() or c.group(1)[0].isdigit() or '::' in c.group(1)):
+                c2 = re.match(r'&?\s*([\w:]+)', pat)
+                if c2 and '|' not in pat and '@' not in pat and (c2.group(1)[0].isupper() or '::' in c2.group(1)):
+                    return c2.group(1), False
+                return None, False
+            blank = c.group(3) is None or all(x.strip() in ('_', '..') for x in c.group(3).split(','))
+            return c.group(1), blank
+        heads = []
+        for h, b in arms:
+            g = G.match(h)
+            heads.append((g, ) + ctor_of(g.group(1) if g else h))
+        ok = all(c is not None for g, c, blank in heads)
+        target = {}
+        if ok:
+            for i, (g, c, blank) in enumerate(heads):
+                if not g:
+                    continue
+                # the first later arm that a value of constructor c can reach must be unguarded and bind nothing
+                for j in range(i + 1, len(arms)):
+                    gj, cj, bj = heads[j]
+                    if cj == c or cj == '_':
+                        if gj is None and bj:
+                            target[i] = j
+                        break
+                if i not in target:
+                    ok = False
+                    break
+        if not ok:
+            left += 1
+            continue
+        out = []
+        for i, (h, b) in enumerate(arms):
+            g = heads[i][0]
+            if g:
+                cond = ' '.join(g.group(2).split())
+                dflt = arms[target[i]][1]
+                if dflt.strip('{} \n\t') == '':
+                    out.append('%s => { if %s %s }' % (g.group(1).strip(), cond, b))
+                else:
+                    out.append('%s => { if %s %s else %s }' % (g.group(1).strip(), cond, b, dflt))
+                done += 1
+            else:
+                out.append('%s => %s' % (h, b))
+        text = text[:ob + 1] + '\n            ' + '\n            '.join(out) + '\n        ' + text[cb:]
+    return text, done, left
+
+
 def r20_str_match(text, scrutinee, eq='str_eq'):
     """`match S { "a" => A, "b" | "c" => B, other => D }` (string-literal patterns)  ->
     `if str_eq(S,"a") {A} else if str_eq(S,"b") || str_eq(S,"c") {B} else { let other = S; D }`.
